@@ -64,6 +64,9 @@ def distance_matrix(name, X, kw):
     n = X.shape[0]
     M = np.zeros((n, n))
     for i in range(n):
+        # the diagonal is what the metric itself returns for (x, x) — the named path computes it too
+        # (e.g. ll_dirichlet's Stirling approximation leaves ~5e-4 there)
+        M[i, i] = float(f(X[i].copy(), X[i].copy(), *args))
         for j in range(i + 1, n):
             M[i, j] = M[j, i] = float(f(X[i].copy(), X[j].copy(), *args))
     return M
@@ -119,6 +122,9 @@ def run(ctx):
                 M = distance_matrix(name, X, kw)
             except Exception as e:  # noqa
                 ctx.skip(f"distance function for {name} not applicable to generated data: {type(e).__name__}")
+                break
+            if not np.all(np.isfinite(M)):
+                ctx.skip(f"metric returns a non-finite value on the generated data (e.g. d(x, x) = NaN): precomputed input is rejected")
                 break
             if not distinct(M):
                 ctx.skip("distances not pairwise distinct")
